@@ -145,6 +145,45 @@ Theorem C05_merge_pinned_refuted :
 Proof. exact merge_pinned_refuted. Qed.
 Print Assumptions C05_merge_pinned_refuted.
 
+(** ** Refused operations before the merge *)
+
+(** Operations the record refuses ([rstep] = [None]: commit / discard without a writable
+    container or through a read-only handle, create_patch through a read-only handle or with a
+    writable container, writes without a writable container or refused by the overlay) leave the
+    record state unchanged, hence also the result of a following merge. *)
+Theorem C05_refused_ops_frame : forall mfm ro (S : rstate) (ops : list rop),
+  Forall (fun o => rstep mfm ro S o = None) ops ->
+  rrun mfm ro S ops = S /\ forall d, merge_files mfm d (rrun mfm ro S ops) = merge_files mfm d S.
+Proof. exact refused_ops_frame. Qed.
+Print Assumptions C05_refused_ops_frame.
+
+(** On a committed record every operation except create_patch is refused; through a
+    read-only handle create_patch too. *)
+Theorem C05_committed_refuses : forall mfm ro (S : rstate) (o : rop),
+  rs_writable S = false -> (forall p, o = RCreate p -> ro = true) -> rstep mfm ro S o = None.
+Proof. exact committed_refuses. Qed.
+Print Assumptions C05_committed_refuses.
+
+(** create_patch, any writes, discard_patch: the same state again. *)
+Theorem C05_create_discard_frame : forall mfm (S : rstate) (p : N) (ws : list op),
+  rs_writable S = false -> rs_files S <> [] -> Forall (fun o => o <> OBoundary) ws ->
+  rrun mfm false S (RCreate p :: map RWrite ws ++ [RDiscard]) = S.
+Proof. exact create_discard_frame. Qed.
+Print Assumptions C05_create_discard_frame.
+
+(** The pinned [IH5MFRecord.commit_patch] (shallow copy of the user block, manifest link written
+    into the shared [ub_exts] before the checks): after a refused commit the merge produces a
+    file that is not accepted as a record; with the state left unchanged it is. *)
+Theorem C05_refused_commit_pinned_refuted :
+  exists S o S' M f,
+    checks true false (rs_files S) = None /\ rstep true false S o = None /\
+    merge_files true 200 (rapply_pinned true false S o) = MOk S' M f /\
+    checks true false [f] <> None /\
+    (exists S2 M2 f2, merge_files true 200 (rapply true false S o) = MOk S2 M2 f2 /\
+                      checks true false [f2] = None).
+Proof. exact refused_commit_pinned_refuted. Qed.
+Print Assumptions C05_refused_commit_pinned_refuted.
+
 (** ** Non-vacuity *)
 
 (** The three-container history of C01 (replace-then-touch): merge, then a follow-up patch that
